@@ -250,6 +250,11 @@ def r2_pipeline(cx):
         if ok:
             pv, kv = [U(e) for e in loops[0].target.elts]
             ok = U(loops[0].body[0]) == "%s = %s.parse_line(%s, **%s)" % (lv, pv, lv, kv)
+            if not ok and U(loops[0].body[0]) == "%s = %s(%s, **%s)" % (lv, pv, lv, kv):
+                # the list holds the bound parse_line methods (looked up once per call): every element appended to it must be <stage>.parse_line
+                aps_ = [x_ for x_ in find_calls(cc.body, attr="append") if U(x_.func.value) == plist]
+                ok = bool(aps_) and all(x_.args and isinstance(x_.args[0], ast.Tuple) and len(x_.args[0].elts) == 2 and isinstance(x_.args[0].elts[0], ast.Attribute)
+                                        and x_.args[0].elts[0].attr == "parse_line" for x_ in aps_)
         cx.require(ok, f, "every stage of the pipeline is applied to every line, in list order, with no early exit", construct=short(loops[0], 120) if loops else "def _clean_line")
         rets = [r for r in f.body if isinstance(r, ast.Return)]
         cx.require(len(rets) == 1 and U(rets[0].value) == lv, f, "_clean_line returns the line as transformed by the last stage", construct=short(rets[0]) if rets else "(none)")
